@@ -237,19 +237,49 @@ def h_heavenorhell(cmode, grid):
     S.check('HeavenOrHell:well-formed;reading-in-church-reveals-heaven-with-the-coherence-probability', S.And(ok))
 
 
-def h_cliff():
-    m = cw.CliffWalking()
+def _cliff_clauses(m):
     locs = set(m.location_list)
+    starts = set(m.locations_with('s'))
     ok = []
     for s in sorted(locs):
         for a in m.actions(s):
             d = m.next_state_dist(s, a)
             ok += norm_clauses(d, inside=locs)
+            tgt = gmdp.Location(max(min(s.x + a.dx, m.width - 1), 0), max(min(s.y + a.dy, m.height - 1), 0))      # the commanded cell, clipped to THIS model's grid
+            if m.feature_at(tgt) == 'x':
+                ok.append(S.truth(set(d.support) == starts))                                                   # falling resets onto THIS model's start cells
+            else:
+                ok.append(S.truth(list(d.support) == [tgt]))
             for ns in d.support:
-                ok.append(S.truth(m.reward(s, a, ns) in (-1, -100)))
+                ok.append(S.truth(m.reward(s, a, ns) == (-100 if m.feature_at(tgt) == 'x' else -1)))
                 ok.append(S.truth(m.feature_at(ns) != 'x'))
     ok += norm_clauses(m.initial_state_dist(), inside=locs)
-    S.check('CliffWalking:well-formed;never-rests-on-the-cliff', S.And(ok))
+    return ok
+
+
+def h_cliff():
+    S.check('CliffWalking:well-formed;never-rests-on-the-cliff', S.And(_cliff_clauses(cw.CliffWalking())))
+
+
+def h_cliff_layouts(order):
+    """several cliff-walking models with DIFFERENT layouts alive in one process (sub-classes that hand their own grid to GridMDP.__init__), built and
+    queried in the given order, the stock one among them: each must be well-formed on ITS OWN layout whatever was built or asked before"""
+    from msdm.domains.gridmdp import GridMDP
+    grids = {'stock': None, 'small': 's.\nxg', 'two-starts': 's..\ns.x\nxxg', 'row': 'sxxg', 'tall': '..\n..\n..\nsg'}
+
+    def make(name):
+        if grids[name] is None:
+            return cw.CliffWalking()
+
+        class Custom(cw.CliffWalking):
+            def __init__(self):
+                GridMDP.__init__(self, grids[name])
+                self.discount_rate = 1.0
+        return Custom()
+    models = [(nm, make(nm)) for nm in order]
+    for rounds in range(2):                     # ask every model, then every model again (answers must not depend on what other models were asked)
+        for nm, m in models:
+            S.check('CliffWalking[%s]:well-formed-on-its-own-layout-with-other-layouts-alive' % nm, S.And(_cliff_clauses(m)))
 
 
 def rt_arrays_and_planning(seed, n):
@@ -324,6 +354,8 @@ def tasks(tier, seed):
     for n in (1, 2, 3, 8):
         T.append(Task('loadunload/n%d' % n, h_loadunload, (n,), tier='B'))
     T.append(Task('cliffwalking', h_cliff, (), tier='B'))
+    for order in (('stock', 'small', 'two-starts'), ('small', 'stock', 'row', 'tall'), ('two-starts', 'tall', 'small')):
+        T.append(Task('cliffwalking/layouts/' + '+'.join(order), h_cliff_layouts, (order,), tier='B', note='several layouts alive in one process'))
     T.append(Task('rt/arrays-and-planning', rt_arrays_and_planning, (seed, 25 if tier == 'quick' else 200), tier='R', kind='rt'))
     return T
 
